@@ -369,7 +369,7 @@ TB = frozenset([True, False])
 class FPClass(object):
     """forward dataflow fixpoint over the CFG"""
 
-    def __init__(self, module, fn, arg_values, summaries=None, arg_int=False):
+    def __init__(self, module, fn, arg_values, summaries=None, arg_int=False, arg_flags=None):
         self.m = module
         self.fn = fn
         self.blocks = dict((b['id'], b) for b in fn['blocks'])
@@ -393,6 +393,11 @@ class FPClass(object):
         # in the tracked lane; rounding an argument declared integral (arg_int) is the identity
         self.arg_int = arg_int
         self.same = set()
+        # per-argument integrality flags for further arguments: {index: 'int' | 'nonint'}; values identical to such an
+        # argument and its roundings are tracked so that y - trunc(y) is +0 resp. a non-zero fraction
+        self.arg_flags = dict(arg_flags or {})
+        self.same_as = {}        # inst id -> argument index
+        self.round_of = {}       # inst id -> argument index (a rounding of that non-integral argument)
 
     def tyF(self, ty):
         return FT(ty.elem.bits if ty.kind == 'vec' else ty.bits)
@@ -550,6 +555,14 @@ class FPClass(object):
                 out = self.join(out, self.val(t['ops'][0]))
         return out
 
+    def arg_of(self, o):
+        """index of the flagged argument this operand is bit-identical to (tracked lane), or None"""
+        if o['k'] == 'a' and o['i'] in self.arg_flags:
+            return o['i']
+        if o['k'] == 'v':
+            return self.same_as.get(o['id'])
+        return None
+
     def is_x(self, o):
         return (o['k'] == 'a' and o['i'] == 0 and self.args[0] is not None) or (o['k'] == 'v' and o['id'] in self.same)
 
@@ -629,6 +642,16 @@ class FPClass(object):
             return None
         if op in ('fadd', 'fsub', 'fmul', 'fdiv', 'frem'):
             a, b = self.asF(V(ops[0]), ty), self.asF(V(ops[1]), ty)
+            ia, ib = self.arg_of(ops[0]), self.arg_of(ops[1])
+            if op == 'fsub' and ia is not None and ia == ib and ia in self.arg_flags:
+                out = F(['PZ']) if (a.neg or a.pos or a.sp & frozenset(['PZ', 'NZ'])) else F()
+                if a.sp & frozenset(['N', 'PI', 'NI']):
+                    out = joinf(out, F(['N']))
+                return ('f', out)
+            if op == 'fsub' and ia is not None and self.arg_flags.get(ia) == 'nonint' and ops[1]['k'] == 'v' and self.round_of.get(ops[1]['id']) == ia:
+                # y - round(y) for a non-integral finite y: a non-zero fraction (every rounding mode)
+                one = 1.0
+                return ('f', F([], (-one, -self.tyF(ty).tiny) , (self.tyF(ty).tiny, one)))
             if op == 'fsub' and self.is_x(ops[0]) and self.is_x(ops[1]):
                 # x - x: +0 for finite x, NaN for an infinity or a NaN
                 out = F(['PZ']) if (a.neg or a.pos or a.sp & frozenset(['PZ', 'NZ'])) else F()
@@ -998,6 +1021,12 @@ class FPClass(object):
             if self.arg_int and self.is_x(ops[0]):
                 self.same.add(inst['id'])          # rounding an integral value (any mode) returns it unchanged
                 return ('f', v)
+            ia_ = self.arg_of(ops[0])
+            if ia_ is not None and self.arg_flags.get(ia_) == 'int':
+                self.same_as[inst['id']] = ia_
+                return ('f', v)
+            if ia_ is not None and self.arg_flags.get(ia_) == 'nonint':
+                self.round_of[inst['id']] = ia_
             out = F(v.sp)
             if v.neg:
                 out = joinf(out, from_real(ft, math.floor(v.neg[0]) if abs(v.neg[0]) < 1e300 else v.neg[0], min(math.ceil(v.neg[1]) if abs(v.neg[1]) < 1e300 else v.neg[1], -0.0), 'NZ'))
